@@ -178,6 +178,15 @@ partial def kInterp {F : Type} [FloatLike F] [Widen F Float] (toks : List String
         let (t, cs, sk) := kQuery e (impl.head?)
         kInterp rest (impl.drop 1) { st with out := st.out ++ [t], prop := st.prop ++ cs, skipped := st.skipped + sk }
       | [] => none
+  | "e" :: rest =>
+      -- `==` of registers is equality of their values; `KahanSum::from(v)` holds `v`
+      match st.stack with
+      | b :: a :: _ =>
+        let f0 : Kahan F := Kahan.new b.reg.value
+        let t : List Tok := [.s (encBool (Cmp.eq a.reg.value b.reg.value)), .s (encBool (Cmp.eq b.reg.value f0.value)),
+                             .s (Codec.enc f0.value)]
+        kInterp rest (impl.drop 1) { st with out := st.out ++ [t] }
+      | _ => none
   | _ => none
 
 /-- `kahan F <program> => sum comp value | …` (one group per query) -/
